@@ -17,7 +17,7 @@ pub fn def() -> PropDef {
         predicate,
         nontrivial,
         functional: true,
-        rule: "grammar-generated programs of depth <= 7 with names from a 10-name pool in every syntactic position (operands, receivers, arguments, indices, map keys and values, list elements, struct fields, select chains, macro ranges and bodies, has() arguments), executed against contexts defining a random subset of the variable and function names; observed: the reported variable and function sets and the execution outcome; predicate on the implementation: an undeclared name is reported, a context defining everything reported never yields undeclared, reported variables occur as identifiers in the source, no '@' name is reported; non-trivial = the program mentions at least two names; distinct = distinct (context, source)",
+        rule: "grammar-generated programs of depth <= 7 with names from a 10-name pool (plain and root-qualified: `.a`, `.g(..)`) in every syntactic position (operands, receivers, arguments, indices, map keys and values, list elements, struct fields, select chains, macro ranges and bodies, has() arguments), executed against contexts defining a random subset of the variable and function names; observed: the reported variable and function sets and the execution outcome; predicate on the implementation: an undeclared name is reported, a context defining everything reported never yields undeclared, reported variables occur as identifiers in the source, no '@' name is reported; non-trivial = the program mentions at least two names; distinct = distinct (context, source)",
         post: super::no_post,
         exhaustive_note: "random sample",
     }
@@ -37,6 +37,7 @@ fn gen(rng: &mut Rng, depth: u32) -> String {
             0 => rng.range(0, 3).to_string(),
             1 => "'s'".to_string(),
             2 => "true".to_string(),
+            3 => format!(".{}", rng.pick(&VARS)), // root-qualified identifier: the same variable
             _ => rng.pick(&VARS).to_string(),
         };
     }
@@ -51,7 +52,9 @@ fn gen(rng: &mut Rng, depth: u32) -> String {
         6 => format!("{}[{}]", gen(rng, d), gen(rng, d)),
         7 => {
             let n = rng.below(3);
-            format!("{}({})", rng.pick(&FUNS), (0..n).map(|_| gen(rng, d)).collect::<Vec<_>>().join(", "))
+            // a root-qualified call `.g(..)` looks up the function named ".g"
+            let dot = if rng.chance(1, 4) { "." } else { "" };
+            format!("{dot}{}({})", rng.pick(&FUNS), (0..n).map(|_| gen(rng, d)).collect::<Vec<_>>().join(", "))
         }
         8 => {
             let n = rng.below(3);
@@ -98,6 +101,11 @@ fn gen_ctx(rng: &mut Rng, full: bool) -> CtxSpec {
             continue;
         }
         if full || rng.chance(1, 2) {
+            spec.fns.push((f.to_string(), FnSpec::Host(vec!["args".into()], Body::Echo)));
+        }
+    }
+    for f in [".g", ".h", ".k", ".size"] {
+        if full || rng.chance(1, 3) {
             spec.fns.push((f.to_string(), FnSpec::Host(vec!["args".into()], Body::Echo)));
         }
     }
